@@ -240,6 +240,24 @@ def run_case(case, ctx):
             except Exception as e:
                 ctx.violation("parse-raised:literal", "read_header_line(%r) raised %r" % (line, e))
             ctx.case_done(["literal", line], nontrivial=True)
+        # ---- the table mnemonics of a LAS 1.2 ~Well section in mixed case, read with case normalisation -----------------------
+        for vers in ("1.2", "2.0"):
+            for mc, f in (("upper", str.upper), ("lower", str.lower)):
+                names = ["Strt", "sTOP", "Step", "Null"]
+                text = "~Version\nVERS. %s : v\nWRAP. NO : w\n~Well\n%s.M 1670.5 : START DEPTH\n%s.M 1680.25 : STOP DEPTH\n%s.M 0.25 : STEP\n%s. -999.25 : NULL VALUE\n~Curves\nDEPT.M : d\n~ASCII\n1670.5\n" % ((vers,) + tuple(names))
+                _mode[0] = "through_file"
+                try:
+                    las = lasio.read(text, mnemonic_case=mc)
+                except Exception as e:
+                    ctx.violation("file-read-raised:mixed-case-table-mnemonics", "read raised %r" % (e,), {"text": text})
+                    continue
+                finally:
+                    _mode[0] = "direct"
+                got = [(it.original_mnemonic, it.unit, it.value, it.descr) for it in las.well]
+                want = [(f(names[0]), "M", 1670.5, "START DEPTH"), (f(names[1]), "M", 1680.25, "STOP DEPTH"), (f(names[2]), "M", 0.25, "STEP"), (f(names[3]), "", -999.25, "NULL VALUE")]
+                ctx.count("mixed_case_table_mnemonic_files")
+                if got != want:
+                    ctx.violation("file-item:mixed-case-table-mnemonic:v%s" % vers, "~Well of a %s file read with mnemonic_case=%s: %r, expected %r" % (vers, mc, got, want), {"text": text})
         return
     for _ in range(case["n"]):
         r = make_line(rng, case["form"], case["section"], case.get("hour"))
